@@ -29,6 +29,7 @@ pub fn dispatch(
         "wrong-needle" => wrong_needle(args, thorough, seed, total, bounds),
         "memchr-alloc" => memchr_alloc(args, thorough, total, bounds),
         "pf" => pf(args, thorough, seed, total, bounds),
+        "sf" => sf(args, thorough, seed, total, bounds),
         _ => return false,
     }
     true
@@ -791,4 +792,28 @@ fn pf(args: &Args, thorough: bool, seed: u64, total: &mut Report, bounds: &mut M
     });
     total.merge(rep);
     bounds.insert("pf".into(), json!({"needles": needles.len(), "rankers": rankers, "grid": "prefix {0,100,1000[,400,20000]} x false candidates {0,49,50,51,70[,10,48,52,60]} x gap {1,2,5,7,8,9,12 [1..=12]} x match distance {none,0,7[,1,40]}, each followed by a second run and a second match", "built_from": "the pair the ranker selects for the needle"}));
+}
+
+/// SF: every short needle over a small alphabet against pairs of its own
+/// near-occurrences separated by short gaps, padded past the 16-byte
+/// Rabin-Karp cut-off (reaches Two-Way - with the portable prefilter in the
+/// no-SIMD build - and the vector searchers with needles of 2..=6 bytes).
+fn sf(args: &Args, thorough: bool, seed: u64, total: &mut Report, bounds: &mut Map<String, Value>) {
+    let kinds = crate::parse_kinds_pub(&args.str("subjects", "finder,finder-nopre,memmem,rfinder"));
+    let letters = args.str("letters", "abc").into_bytes();
+    let nmax = args.num("nmax", if thorough { 6 } else { 5 }) as usize;
+    let three = args.flag("three");
+    let needles = AllStrings { letters: letters.clone(), minlen: 2, maxlen: nmax }.all();
+    let rep = par::run_items(&needles, |_, needle, r| {
+        let mut ctx = Ctx::new();
+        ctx.set_needle(needle);
+        let subjects = build_all(r, &kinds, needle, None, seed);
+        let mut idx = 0u64;
+        spaces::sf_haystacks(needle, &letters, b'#', three, |h| {
+            idx += 1;
+            check_hay(&mut ctx, r, &subjects, needle, h, Place::Plain, (idx % 8) as usize, None, idx);
+        });
+    });
+    total.merge(rep);
+    bounds.insert("SF".into(), json!({"needle_letters": String::from_utf8_lossy(&letters), "needle_len": [2, nmax], "pieces": "needle, every single-byte change (to each other letter and a foreign byte), every proper prefix and suffix", "shape": if three { "pad + P + gap + Q + gap + P + pad" } else { "pad + P + gap + Q + pad" }, "gaps": "all strings of <= 2 letters (incl. foreign) and 5 foreign bytes", "pads": "(0,16) (16,0) (1,17) (7,9) (0,0)"}));
 }
